@@ -727,6 +727,13 @@ type universe struct {
 	// lastUp is the upstream reply of the request being served.
 	lastUp *dns.Msg
 	upName string
+	// curEntry is the profile and device of the requester being served.
+	curEntry *profEntry
+	// upFault makes the scripted upstream fail instead of answering.
+	upFault bool
+	// w is set for universes that are built by the production builder
+	// (internal/cmd) and served by several server groups.
+	w *wiringT
 }
 
 type profEntry struct {
@@ -981,11 +988,21 @@ func (u *universe) build(rng *rand.Rand) {
 	content["/services"] = string(b)
 	content["/gss"] = listText(rng, u.gss)
 	content["/yss"] = listText(rng, u.yss)
-	hp := func(name string, id filter.ID, h hashSet) *hashprefix.Filter {
+	setHP := func(name string, h hashSet) {
 		content["/"+name] = strings.Join(h.hosts, "\n") + "\n"
 		if len(h.hosts) == 0 {
 			content["/"+name] = "never-queried.invalid\n"
 		}
+	}
+	if u.w != nil {
+		setHP("ad", u.ad)
+		setHP("sb", u.sb)
+		setHP("nr", u.nr)
+		u.buildWired(at)
+		return
+	}
+	hp := func(name string, id filter.ID, h hashSet) *hashprefix.Filter {
+		setHP(name, h)
 		strg, err := hashprefix.NewStorage("")
 		hlib.Must(err)
 		f, err := hashprefix.NewFilter(&hashprefix.FilterConfig{
@@ -1042,13 +1059,49 @@ func (u *universe) build(rng *rand.Rand) {
 		Cloner:            cloner,
 		GroupFilterConfig: u.groupConfig(u.grp),
 		Servers:           []*agd.Server{stack.NewServer("dns", agd.ProtoDNS, true)},
-		Upstream: dnsserver.HandlerFunc(func(ctx context.Context, rw dnsserver.ResponseWriter, req *dns.Msg) error {
-			resp := u.upstreamReply(req)
-			u.lastUp = resp.Copy()
-			u.upName = strings.ToLower(strings.TrimSuffix(req.Question[0].Name, "."))
-			return rw.WriteMsg(ctx, req, resp)
-		}),
+		Upstream: u.upstreamHandler(),
 	})
+}
+
+// upstreamHandler is the scripted upstream; it fails on demand.
+func (u *universe) upstreamHandler() dnsserver.Handler {
+	return dnsserver.HandlerFunc(func(ctx context.Context, rw dnsserver.ResponseWriter, req *dns.Msg) error {
+		if u.upFault {
+			return errUpstream
+		}
+		resp := u.upstreamReply(req)
+		u.lastUp = resp.Copy()
+		u.upName = strings.ToLower(strings.TrimSuffix(req.Question[0].Name, "."))
+		return rw.WriteMsg(ctx, req, resp)
+	})
+}
+
+func slicesContains(xs []int, x int) bool {
+	for _, y := range xs {
+		if y == x {
+			return true
+		}
+	}
+	return false
+}
+
+var errUpstream = fmt.Errorf("verif: scripted upstream failure")
+
+// serve sends one request through the handler stack: the single-group fixture,
+// or the server sel of a wired universe.
+func (u *universe) serve(ctx context.Context, sel srvSel, msg *dns.Msg, remote netip.Addr) stack.Outcome {
+	if u.w != nil {
+		var devID agd.DeviceID
+		u.profMu.Lock()
+		u.curEntry = nil
+		if e, ok := u.profs[remote]; ok {
+			devID, u.curEntry = e.d.ID, e
+		}
+		u.profMu.Unlock()
+		return u.w.serve(ctx, sel, msg, remote, devID)
+	}
+	return u.st.Serve(ctx, &stack.Req{Server: u.st.Servers[0], Msg: msg,
+		Remote: netip.AddrPortFrom(remote, 5353), Local: netip.MustParseAddrPort("192.0.2.2:53")})
 }
 
 var errNotFound = notFoundErr{}
@@ -1931,17 +1984,43 @@ func (u *universe) listTexts(c cfgT) map[string][]string {
 
 var profSeq int
 
-func runUniverse(o *hlib.Opts, r *hlib.Result, m *hlib.Model, rng *rand.Rand, nCfg, nQ int) {
+func runUniverse(o *hlib.Opts, r *hlib.Result, m *hlib.Model, rng *rand.Rand, nCfg, nQ int, wired bool) {
 	u := genUniverse(rng)
+	nGroupCfg := 1
+	if wired {
+		u.w = genWiring(rng, u)
+		nGroupCfg = len(u.w.sgs)
+		nCfg += nGroupCfg - 1
+		r.Count("wired-universe")
+	}
+	// The anonymous requesters come first and once more after the profiles:
+	// the request information is pooled per server.
+	nCfg += nGroupCfg
 	u.build(rng)
 	defer u.close()
 	u.grp.isPaused = u.grp.pause.oraclePaused(r, u.grp.now)
 	ulines := u.modelLines()
+	if wired {
+		ulines = append(ulines, u.w.modelLines(u)...)
+	}
 	ctx := context.Background()
 
 	profID, updTime := "", time.Unix(1700000000, 0)
 	for ci := 0; ci < nCfg; ci++ {
-		isGroup := ci == 0
+		grpIdx := -1
+		switch {
+		case ci < nGroupCfg:
+			grpIdx = ci
+		case ci >= nCfg-nGroupCfg:
+			grpIdx = ci - (nCfg - nGroupCfg)
+			r.Count("anonymous-after-profiles")
+		}
+		isGroup := grpIdx >= 0
+		var sel srvSel
+		if wired {
+			sel = u.w.pickServer(rng, grpIdx, isGroup)
+			r.Count("wired-request-via-" + sel.srv.Protocol.String())
+		}
 		if profID != "" && !isGroup && rng.IntN(3) == 0 {
 			// The same profile again with its settings changed: the custom
 			// rules are cached by profile ID and must be rebuilt for a newer
@@ -1963,7 +2042,19 @@ func runUniverse(o *hlib.Opts, r *hlib.Result, m *hlib.Model, rng *rand.Rand, nC
 		// server's for an anonymous requester and for a profile from which no
 		// constructor can be made (negative TTL).
 		var profMode modeT
-		if isGroup {
+		if isGroup && wired {
+			// An anonymous requester on a server of this server group: the
+			// filtering group the group names, as the builder converted it
+			// from the configuration file.
+			sg := u.w.sgs[grpIdx]
+			c, mode, which = u.w.groups[sg.grp], u.gmode, "g"
+			clockNow = c.now
+			clines = append(clines, c.timeLines()...)
+			clines = append(clines, "usegrp "+sg.name)
+			flt = u.strg.ForConfig(ctx, u.w.built.Groups[agd.FilteringGroupID(fgName(sg.grp))].FilterConfig)
+			sw[0] = false
+			r.Count(fmt.Sprintf("wired-group-config-%d-of-%d", sg.grp, len(u.w.groups)))
+		} else if isGroup {
 			c, mode, which = u.grp, u.gmode, "g"
 			clockNow = c.now
 			clines = append(clines, c.timeLines()...)
@@ -1971,6 +2062,22 @@ func runUniverse(o *hlib.Opts, r *hlib.Result, m *hlib.Model, rng *rand.Rand, nC
 			sw[0] = false
 		} else {
 			c = genCfg(rng, u, true)
+			if wired {
+				// The builder's storage reads the system clock.
+				c.pause, c.now = nil, defaultNow
+				if ci == nGroupCfg {
+					// One profile that asks for everything the process can
+					// offer: whatever the environment switches off must be
+					// missing, whatever it leaves on must be there.
+					c.parentalOn, c.sbOn, c.ad, c.sb, c.nr, c.gss, c.yss = true, true, true, true, true, true, true
+					for i := range u.svcs {
+						if !slicesContains(c.svcs, i) {
+							c.svcs = append(c.svcs, i)
+						}
+					}
+					r.Count("wired-all-on-profile")
+				}
+			}
 			c.profID, c.updTime = profID, updTime
 			c.isPaused = c.pause.oraclePaused(r, c.now)
 			clockNow = c.now
@@ -1998,6 +2105,9 @@ func runUniverse(o *hlib.Opts, r *hlib.Result, m *hlib.Model, rng *rand.Rand, nC
 			}
 		}
 		eff := c.effective(u)
+		if wired {
+			eff = u.w.mask(eff)
+		}
 		if !c.parentalOn || c.paused() || !c.rlOn || !c.sbOn || (len(c.custom) > 0 && !c.hasCust) {
 			r.Count("cfg-some-master-switch-off")
 		}
@@ -2005,6 +2115,10 @@ func runUniverse(o *hlib.Opts, r *hlib.Result, m *hlib.Model, rng *rand.Rand, nC
 		msgs, err := dnsmsg.NewConstructor(&dnsmsg.ConstructorConfig{Cloner: cloner, BlockingMode: mode.build(),
 			StructuredErrors: agdtest.NewSDEConfig(true), FilteredResponseTTL: mode.dur(), EDEEnabled: true})
 		hlib.Must(err)
+		if isGroup && wired {
+			// The constructor the builder made from filters.response_ttl.
+			msgs = u.w.built.Messages
+		}
 
 		remote := netip.AddrFrom4([4]byte{10, 9, byte(ci >> 8), byte(ci)})
 		if !isGroup {
@@ -2019,6 +2133,9 @@ func runUniverse(o *hlib.Opts, r *hlib.Result, m *hlib.Model, rng *rand.Rand, nC
 		}
 
 		qs := genQueries(rng, nQ)
+		if wired {
+			qs = append(qs, u.w.probeQueries(u, qs)...)
+		}
 		var ops []string
 		type obs struct {
 			kind string // req resp mw
@@ -2033,6 +2150,10 @@ func runUniverse(o *hlib.Opts, r *hlib.Result, m *hlib.Model, rng *rand.Rand, nC
 			// for resp: what a case-sensitive reading of the CNAME targets
 			// would give
 			expCS expectation
+			// for mwf: the injected fault and whether the stack returned an
+			// error
+			fault    string
+			faultErr bool
 		}
 		var observed []obs
 		for _, q := range qs {
@@ -2068,8 +2189,7 @@ func runUniverse(o *hlib.Opts, r *hlib.Result, m *hlib.Model, rng *rand.Rand, nC
 				mwReq.SetEdns0(1232, q.edns == 2)
 				r.Count("query-with-edns")
 			}
-			out := u.st.Serve(ctx, &stack.Req{Server: u.st.Servers[0], Msg: mwReq,
-				Remote: netip.AddrPortFrom(remote, 5353), Local: netip.MustParseAddrPort("192.0.2.2:53")})
+			out := u.serve(ctx, sel, mwReq, remote)
 			real := msgString(out.Resp, u.lastUp)
 			if out.Err != nil {
 				real = "error " + out.Err.Error()
@@ -2086,8 +2206,7 @@ func runUniverse(o *hlib.Opts, r *hlib.Result, m *hlib.Model, rng *rand.Rand, nC
 				u.lastUp = nil
 				dbgReq := newReq(q.wire, q.qt)
 				dbgReq.Question[0].Qclass = dns.ClassCHAOS
-				dout := u.st.Serve(ctx, &stack.Req{Server: u.st.Servers[0], Msg: dbgReq,
-					Remote: netip.AddrPortFrom(remote, 5353), Local: netip.MustParseAddrPort("192.0.2.2:53")})
+				dout := u.serve(ctx, sel, dbgReq, remote)
 				dreal := msgString(dout.Resp, u.lastUp) + " | " + debugVerdict(dout.Resp)
 				if dout.Err != nil {
 					dreal = "error " + dout.Err.Error()
@@ -2095,6 +2214,20 @@ func runUniverse(o *hlib.Opts, r *hlib.Result, m *hlib.Model, rng *rand.Rand, nC
 				ops = append(ops, fmt.Sprintf("dbg %s %d", q.wire, q.qt))
 				observed = append(observed, obs{kind: "dbg", real: dreal, q: q, reqV: reqV, respV: respV, upReply: u.lastUp, upName: u.upName})
 			}
+		}
+
+		// (d) faults: the upstream fails, or the context is dead by the time
+		// the request has been filtered.
+		for _, kind := range []string{"uperr", "cancel"} {
+			if rng.IntN(2) == 0 {
+				continue
+			}
+			q := qs[rng.IntN(len(qs))]
+			res, _ := flt.FilterRequest(ctx, &filter.Request{DNS: newReq(q.wire, q.qt), Messages: msgs, RemoteIP: remote,
+				Host: q.host, QType: q.qt, QClass: dns.ClassINET})
+			real, fErr := u.serveFault(ctx, sel, kind, newReq(q.wire, q.qt), remote)
+			ops = append(ops, fmt.Sprintf("mwf %s %s %d", kind, q.wire, q.qt))
+			observed = append(observed, obs{kind: "mwf", real: real, q: q, reqV: verdictString(res), fault: kind, faultErr: fErr})
 		}
 
 		lines := append(append(append([]string{}, ulines...), clines...), ops...)
@@ -2194,6 +2327,11 @@ func runUniverse(o *hlib.Opts, r *hlib.Result, m *hlib.Model, rng *rand.Rand, nC
 				}
 				if !ok {
 					r.Disagree("mw-debug-response", fmt.Sprintf("%s: real %q model %q", ops[i], ob.real, answers[i]), mk(ob.real, answers[i], ""))
+				}
+			case "mwf":
+				u.oracleFault(r, ob.q, mode, filteringOn, ob.fault, ob.reqV, ob.real, ob.faultErr, mk)
+				if answers[i] != ob.real {
+					r.Disagree("mw-fault", fmt.Sprintf("%s: real %q model %q", ops[i], ob.real, answers[i]), mk(ob.real, answers[i], ""))
 				}
 			case "mw":
 				u.oracleMW(r, ob.q, mode, filteringOn, ob.reqV, ob.respV, ob.real, ob.upReply, ob.upName, mk)
@@ -2599,8 +2737,20 @@ func main() {
 		nU, nCfg, nQ = 4500, 10, 24
 	}
 	for i := 0; i < nU; i++ {
-		runUniverse(o, r, m, rng, nCfg, nQ)
+		runUniverse(o, r, m, rng, nCfg, nQ, false)
 	}
+	// Universes built by the production builder (environment + configuration
+	// file) and served by several server groups with their own filtering
+	// groups over several protocols.
+	wrng := o.Rand("wired")
+	nW := 60
+	if o.Thorough() {
+		nW = 300
+	}
+	for i := 0; i < nW; i++ {
+		runUniverse(o, r, m, wrng, 5, nQ, true)
+	}
+	runBoundaries(r, o.Rand("boundaries"))
 	runGrid(r, m, o.Rand("grid"), o.Thorough())
 	runSchedGrid(r, m, o.Thorough())
 	r.Finish()
